@@ -27,6 +27,12 @@ def run(r):
         raise tlc.TLCError('simulation config violates %s' % s.violated)
     r.transitions += s.generated
     r.replay(drv, s.behaviours, 'FuncSignal', 'simulate', parallel=16, factory=FuncSignalDriver)
+    # focused multi-object histories (aliasing between a sum and its operands shows only when the sum is mutated)
+    s2 = tlc.simulate('FuncSignalMC', 'FuncSignal_alias.cfg', 'C06/sim2', num=3000 if thorough else 500, depth=9, seed=r.seed + 7)
+    if s2.violated:
+        raise tlc.TLCError('simulation config violates %s' % s2.violated)
+    r.transitions += s2.generated
+    r.replay(drv, s2.behaviours, 'FuncSignal', 'simulate (aliasing focus)', parallel=16, factory=FuncSignalDriver)
     # D2 regression: as-is model (set_buffers keeps the cache) must give the NoStale counterexample,
     # and the repaired code must not follow it
     w = r.model_check('FuncSignalMC', 'FuncSignal_asis.cfg', expect_violation='NoStale')
@@ -47,6 +53,14 @@ def run(r):
         for kind in kinds:
             behs = sl.behaviours if kind not in ('basic', 'layered') else sl.behaviours[:max(32, nl // 5)]
             r.replay(None, behs, 'LazyObj', '%s %s' % (kind, target), parallel=16, factory=LazyDriver,
+                     factory_kw=dict(kind=kind, target=target))
+    # every edge of the small LazyObj graphs (read - assign / augmented assign - read) on real tracers and paths
+    for cfg, target, kinds in (('LazyObj_gtracer.cfg', 'tracer', ['specialized', 'uniform']), ('LazyObj_gupath.cfg', 'path', ['uniform'])):
+        gl = tlc.check('LazyObjMC', cfg, 'C06/lgraph', dump=True)
+        lb, nn, ne, nc = tlc.graph_cover(gl.dot, rng=random.Random(r.seed))
+        r.extra['lazyobj_graph_' + target] = {'nodes': nn, 'edges': ne, 'behaviours': len(lb)}
+        for kind in kinds:
+            r.replay(None, lb, 'LazyObj', '%s %s' % (kind, target), parallel=16, factory=LazyDriver,
                      factory_kw=dict(kind=kind, target=target))
     wl = r.model_check('LazyObjMC', 'LazyObj_asis.cfg', expect_violation='NoStale')
     r.extra['lazyobj_identity_skip_witness'] = [core.tlaval.to_json(s_['last']) for _, s_ in wl.trace]
